@@ -56,14 +56,32 @@ theorem predOf_eq (T : Table) (i j : Nat) (mv : Kind) :
 def Good (T : Table) (R C : Nat) (B : Int) (st : TB) : Prop :=
   st.i ≤ R ∧ st.j ≤ C ∧ ∃ v, (T.at st.i st.j).get st.layer = some v ∧ total st.aln + st.score + v = B
 
-/-- `H`: in an inner cell some `case` matches the current value (unless the local aligner stops) -/
-theorem loop_good_gen (sw : Bool) {T : Table} {S : Matrix} {o : Int} {r q : List Nat} (R C : Nat)
+theorem caseHit_vadd {aware : Bool} {T : Table} {st : TB} {v : Int} {cd : Kind × Kind × Int}
+    (h : caseHit aware T st v cd = true) :
+    vadd ((predOf T st.i st.j cd.1).get cd.2.1) cd.2.2 = some v := by
+  simp only [caseHit, Bool.and_eq_true, beq_iff_eq] at h
+  exact h.2
+
+theorem caseHit_layer {T : Table} {st : TB} {v : Int} {cd : Kind × Kind × Int}
+    (h : caseHit true T st v cd = true) : cd.1 = st.layer := by
+  simp only [caseHit, Bool.and_eq_true, Bool.not_true, Bool.false_or, decide_eq_true_eq] at h
+  exact h.1
+
+theorem caseHit_of {aware : Bool} {T : Table} {st : TB} {v : Int} {cd : Kind × Kind × Int}
+    (hl : cd.1 = st.layer) (h : vadd ((predOf T st.i st.j cd.1).get cd.2.1) cd.2.2 = some v) :
+    caseHit aware T st v cd = true := by
+  simp only [caseHit, Bool.and_eq_true, beq_iff_eq, Bool.or_eq_true, decide_eq_true_eq]
+  exact ⟨Or.inr hl, h⟩
+
+/-- `H`: in an inner cell some `case` *of the current layer* matches the current value (unless
+    the local aligner stops) — so the layer-aware switch finds one as well as the layer-blind -/
+theorem loop_good_gen (aware sw : Bool) {T : Table} {S : Matrix} {o : Int} {r q : List Nat} (R C : Nat)
     (H : ∀ i j, i < R → j < C → ∀ k v, (T.at (i + 1) (j + 1)).get k = some v → ¬ (sw = true ∧ v = 0) →
-      ∃ cd ∈ cands sw S o (r.getD i 0) (q.getD j 0),
+      ∃ cd ∈ cands sw S o (r.getD i 0) (q.getD j 0), cd.1 = k ∧
         vadd ((predOf T (i + 1) (j + 1) cd.1).get cd.2.1) cd.2.2 = some v)
     (B : Int) :
     ∀ (fuel : Nat) (st : TB), Good T R C B st → st.i + st.j ≤ fuel →
-      ∃ st', tbLoop sw T S o r q R C fuel st = .ok st' ∧ Good T R C B st' ∧
+      ∃ st', tbLoop aware sw T S o r q R C fuel st = .ok st' ∧ Good T R C B st' ∧
         (st'.i = 0 ∨ st'.j = 0 ∨ (sw = true ∧ (T.at st'.i st'.j).get st'.layer = some 0)) := by
   intro fuel
   induction fuel with
@@ -88,19 +106,19 @@ theorem loop_good_gen (sw : Bool) {T : Table} {S : Matrix} {o : Int} {r q : List
     have hx : st.i - 1 = i' := by omega
     have hy : st.j - 1 = j' := by omega
     rw [hx, hy]
-    obtain ⟨cd, hmem, hcd⟩ := H i' j' (by omega) (by omega) st.layer v (by rw [← hi', ← hj']; exact hv) hsw
-    cases hfind : (cands sw S o (r.getD i' 0) (q.getD j' 0)).find?
-        (fun cd => vadd ((predOf T st.i st.j cd.1).get cd.2.1) cd.2.2 == some v) with
+    obtain ⟨cd, hmem, hcdk, hcd⟩ := H i' j' (by omega) (by omega) st.layer v (by rw [← hi', ← hj']; exact hv) hsw
+    cases hfind : (cands sw S o (r.getD i' 0) (q.getD j' 0)).find? (caseHit aware T st v) with
     | none =>
       exfalso
       rw [List.find?_eq_none] at hfind
       apply hfind cd hmem
+      apply caseHit_of hcdk
       rw [hi', hj']
-      simpa using hcd
+      exact hcd
     | some found =>
       obtain ⟨mv, pl, add⟩ := found
-      have hp := List.find?_some hfind
-      simp only [beq_iff_eq] at hp
+      have hp := caseHit_vadd (List.find?_some hfind)
+      simp only [] at hp
       obtain ⟨pv, hpv, hadd⟩ := vadd_eq_some hp
       simp only []
       have hvget : vget ((predOf T st.i st.j mv).get pl) = pv := by rw [hpv]; rfl
